@@ -125,7 +125,10 @@ func runIdem(o *opts) {
 					c.Targets = []string{stages[rr.intn(len(stages))]}
 				}
 				spec := 16
-				if c.Kind == prev.Kind && c.Copy == prev.Copy {
+				// a REPEAT is the same command on the same stages (or on a subset of what the
+				// previous one covered); the same verb on more stages is a different command
+				covered := len(prev.Targets) == 0 || (len(c.Targets) == 1 && len(prev.Targets) == 1 && c.Targets[0] == prev.Targets[0])
+				if c.Kind == prev.Kind && c.Copy == prev.Copy && covered {
 					spec = 2
 				}
 				t, w2 := p.do(c, nil, want(spec, 13), nil, w)
@@ -135,7 +138,7 @@ func runIdem(o *opts) {
 				t.Info["sequence"] = fmt.Sprint(sq)
 				t.Info["position"] = k
 				all = append(all, t)
-				prev = Cmd{Kind: c.Kind, Copy: c.Copy}
+				prev = Cmd{Kind: c.Kind, Copy: c.Copy, Targets: c.Targets}
 			}
 			distinct[fmt.Sprintf("%d|%v", fi, sq)] = true
 			s.count("fixture:" + f.name)
